@@ -42,11 +42,11 @@ Record surface := mkSurf {
   s_class : sclass;            (* Python class of the object *)
   s_type : string;             (* surface_type mnemonic (upper case) *)
   s_consts : list Q;           (* surface_constants *)
-  s_oldper : Z;                (* old_periodic_surface (0 = None): what the code tests *)
-  s_perptr : Z;                (* number of periodic_surface (0 = None): what is true now *)
+  s_oldper : Z;                (* old_periodic_surface (0 = None): read by Part 2 only *)
+  s_perptr : Z;                (* number of the live periodic_surface (0 = None): what the code tests *)
   s_refl : bool;               (* is_reflecting *)
   s_white : bool;              (* is_white_boundary *)
-  s_oldtr : Z;                 (* old_transform_number (0 = None) *)
+  s_oldtr : Z;                 (* old_transform_number (0 = None): read by Part 2 only *)
   s_tr : option transform      (* the Transform object [transform] points to (its data now) *)
 }.
 
